@@ -423,8 +423,10 @@ inline void initStripeState(
       stripeEnd = end;
     } else {
       Wide perStripe = totalRange / static_cast<Wide>(numWorkers);
-      Wide endWide = static_cast<Wide>(start) + static_cast<Wide>(i + 1) * perStripe;
-      stripeEnd = alignDownStripe(static_cast<IntegerT>(endWide), state.granularity);
+      // Align the stripe boundary to a multiple of granularity counted from `start` (not to an
+      // absolute multiple): chunk sizes, not chunk positions, must be multiples of granularity.
+      Wide offset = alignDownStripe(static_cast<Wide>(i + 1) * perStripe, state.granularity);
+      stripeEnd = static_cast<IntegerT>(static_cast<Wide>(start) + offset);
       if (stripeEnd <= cursor) {
         stripeEnd = cursor;
       }
